@@ -12,7 +12,14 @@ RULE = ('polygons of the C04 space (any plane, either winding, any start, offset
         'both windings, every cyclic start: 6% of the configurations are swept over all starts x windings of one hole), holes well inside and apart; '
         'get_closed_loop() vertex list and the state of the subsequently close()d loop compared bit for bit; the oracle re-derives the nearest '
         'vertex-to-vertex bridges exactly and skips (counting them in the input distribution) configurations whose bridge is obstructed, tied, '
-        'or not in general position w.r.t. the collinearity tolerance; non-trivial = at least one hole; distinct = distinct (outer, holes) bit patterns')
+        'or not in general position w.r.t. the collinearity tolerance; non-trivial = at least one hole; distinct = distinct (outer, holes) bit patterns. '
+        'After 30% of the merge cases (drawn from a second generator state, so the merge cases do not depend on them) four groups of direct calls '
+        '(buckets ops:*, correspondence only, trivial for the count): is_diagonal (corner chords, vertex pairs, chords along / half / beyond an edge, '
+        'lengths around 1e-5, chords from the repeated bridge vertices of the closed merged outline, floating and off-plane segments; on the outer loop, '
+        'the merged outline, a closed loop that lost a corner through remove, empty / 2-vertex loops), sanitize (outer, merged open / closed, loops with a '
+        'collinear run or a retraced spike obtained through remove, closed and open, opened loop), contains_segment of loops and of the polygon + '
+        'Polygon3D::inner in and out of range, perimeter / area (closed: value, open: Err), is_coplanar (in plane, around 1e-7, off plane, no vertices, '
+        'no normal), remove and [i] in and out of range')
 ASSUMPTIONS = [
     'Coq 8.16.1 kernel + vm_compute; the sequence characterisation holds for every number instance of the model, the Newell/edge-sum identity over the reals',
     'model = code: polygon3d.rs get_closed_loop (nearest-pair scan, hole walk index arithmetic, rebuild by push) checked bit-for-bit, then Loop3D::close',
@@ -98,12 +105,40 @@ def quantifier(c, st):
     c['_q'] = res
     return res
 
+def is_ops(c): return c.get('kind') == 'ops'
+
+def ops_summary(c):
+    """per operation of an 'ops' case: {name: {label:outcome: count}} (outcome: true/false/ok/Err<class>/panic)"""
+    out = {}
+    for q in c['qs']:
+        cls = q['class']
+        if cls == 99: o = 'panic'
+        elif cls >= 100: o = 'Err%d' % (cls - 100)
+        elif q['name'] in ('is_diagonal', 'contains_segment', 'poly_contains_segment', 'is_coplanar'): o = 'true' if cls == 1 else 'false'
+        else: o = 'ok'
+        d = out.setdefault(q['name'], {})
+        k = '%s@%s:%s' % (q['lab'], c['labels'][q['subj']] if q['subj'] < len(c['labels']) else '?', o)
+        d[k] = d.get(k, 0) + 1
+    return out
+
 def classify(c, st):
+    if is_ops(c):
+        # the direct calls of the other public Loop3D / Polygon3D operations: correspondence only (trivial for the property's
+        # own count); one bucket per group and per set of outcomes seen in the group
+        outs = set()
+        for q in c['qs']:
+            cls = q['class']
+            outs.add('panic' if cls == 99 else 'Err' if cls >= 100 else 'ok')
+        key = ('ops', c['group'], tuple(tuple(l['v']) for l in c['loops']), tuple((q['op'], q['subj'], q['idx'], tuple(q['args'])) for q in c['qs']))
+        return key, True, 'ops:%s:%dq:%s' % (c['group'], 5 * ((len(c['qs']) + 4) // 5), '+'.join(sorted(outs)))
     key = (tuple(c['outer']['v']), tuple(tuple(h['v']) for h in c['holes']))
     q = quantifier(c, st)[0]
     return key, len(c['holes']) == 0, 'h%d:%s' % (len(c['holes']), q)
 
 def describe(c, st):
+    if is_ops(c):
+        return dict(note=c['note'], group=c['group'], subjects=['%s(%d%s)' % (lb, len(l['v']) // 3, ',closed' if l['closed'] else ',open') for lb, l in zip(c['labels'], c['loops'])],
+                    queries=ops_summary(c))
     return dict(note=c['note'], outer_n=len(c['outer']['v']) // 3, holes=[len(h['v']) // 3 for h in c['holes']],
                 merged_n=(len(c['merged']['v']) // 3 if c['merged'] else None), close=c['co'], quantifier=quantifier(c, st)[0])
 
@@ -112,6 +147,7 @@ def edge_counter(v):
     return Counter((v[i], v[(i + 1) % n]) for i in range(n))
 
 def oracle(c, st):
+    if is_ops(c): return None      # no property text speaks about these calls: model correspondence only
     if c['mo'] == 99: return ('C12:panic', 'get_closed_loop panicked')
     outer = LoopJ(c['outer'], st); holes = [LoopJ(h, st) for h in c['holes']]
     merged = LoopJ(c['merged'], st)
@@ -177,6 +213,7 @@ def oracle(c, st):
     return None
 
 def replay_args(c):
+    if is_ops(c): return loop_bits_args(c['loops'][0])
     out = loop_bits_args(c['outer'])
     for h in c['holes']: out += loop_bits_args(h)
     return out
